@@ -7,7 +7,7 @@ use serde::{Deserialize, Serialize};
 use std::collections::HashSet;
 use std::marker::PhantomData;
 
-pub const OPS: [&str; 24] = [
+pub const OPS: [&str; 27] = [
     "SecretKey::new",
     "SecretKey::split",
     "PublicKey::sign_crypt",
@@ -33,6 +33,10 @@ pub const OPS: [&str; 24] = [
     "PublicKey::encrypt_time_lock [64 byte message]",
     "ProofCommitment::generate [64 byte message]",
     "ProofOfKnowledgeTimestamp::generate [64 byte message]",
+    // trait level ElGamal entry points, the RNG handed in is seeded from the next entropy answer
+    "BlsElGamal::seal_scalar_with_proof [blinder pinned by the caller]",
+    "BlsElGamal::seal_scalar [generator pinned by the caller]",
+    "BlsElGamal::seal_point",
 ];
 
 pub struct Fixed<C: Suite> {
@@ -57,6 +61,32 @@ impl<C: Suite> Fixed<C> {
 pub fn run_op<C: Suite>(f: &Fixed<C>, op: usize) -> Vec<(String, Vec<u8>)> {
     let s = SignatureSchemes::ProofOfPossession;
     // ops 12.. are the four message taking entry points with message variant 1, 2, 3
+    if op >= 24 {
+        use rand_core::SeedableRng;
+        // the caller's RNG: seeded from the entropy seam when it is installed, from the OS otherwise
+        let rng = match blsful::verif_hooks::next_seed() {
+            Some(seed) => rand_chacha::ChaCha20Rng::from_seed(seed),
+            None => rand_chacha::ChaCha20Rng::from_entropy(),
+        };
+        let gen = <C as BlsElGamal>::message_generator();
+        let b = f.sk.0 + f.sk.0;
+        return match op {
+            24 => {
+                let (c1, c2, mp, bp, ch) = <C as BlsElGamal>::seal_scalar_with_proof(f.pk.0, f.sk.0, None, Some(b), rng).expect("seal_scalar_with_proof");
+                let _ = (c1, c2, mp);
+                // the proof nonce r = blinder_proof - challenge * b must be fresh although the blinder is pinned
+                vec![("elgamal-proof nonce r (pinned blinder)".into(), sc_to_be::<C>(&(bp - ch * b)).to_vec())]
+            }
+            25 => {
+                let (c1, c2) = <C as BlsElGamal>::seal_scalar(f.pk.0, f.sk.0, Some(gen), None, rng).expect("seal_scalar");
+                vec![("elgamal c1 (pinned generator)".into(), pt(&c1)), ("elgamal c2 (pinned generator)".into(), pt(&c2))]
+            }
+            _ => {
+                let (c1, c2) = <C as BlsElGamal>::seal_point(f.pk.0, gen, None, rng).expect("seal_point");
+                vec![("elgamal point c1".into(), pt(&c1)), ("elgamal point c2".into(), pt(&c2))]
+            }
+        };
+    }
     let (op, variant) = if op >= 12 { ([2usize, 3, 6, 7][(op - 12) % 4], 1 + (op - 12) / 4) } else { (op, 0) };
     let msg = &f.msgs[variant];
     let sig = f.sigs[variant];
@@ -347,7 +377,7 @@ pub fn models(tier: Tier, seed: u64) -> Vec<Box<dyn DynModel>> {
 }
 
 pub fn describe(tier: Tier, r: &mut Report) {
-    r.rule = "part A (exhaustive, hooked entropy): all histories of the 12 randomized entry points (the four message taking ones with four message lengths each: 24 operations) with identical arguments up to the length bound; each history runs three times - entropy answers A, A again, B: (I1) all ephemerals (points, masks, secrets) of all calls pairwise distinct, (I3) every ephemeral differs between A and B, (I2) A reproduces A, otherwise entropy is drawn outside the seam (machinery failure, not a verdict). part B (free running with real entropy - a sample, not an enumeration): N calls per entry point on 4 threads without a repeated ephemeral, and two independent processes with disjoint ephemerals".into();
+    r.rule = "part A (exhaustive, hooked entropy): all histories of the 12 randomized entry points (the four message taking ones with four message lengths each) plus three trait level ElGamal entry points with a caller pinned blinder / generator: 27 operations with identical arguments up to the length bound; each history runs three times - entropy answers A, A again, B: (I1) all ephemerals (points, masks, secrets) of all calls pairwise distinct, (I3) every ephemeral differs between A and B, (I2) A reproduces A, otherwise entropy is drawn outside the seam (machinery failure, not a verdict). part B (free running with real entropy - a sample, not an enumeration): N calls per entry point on 4 threads without a repeated ephemeral, and two independent processes with disjoint ephemerals".into();
     r.deviation_bound_completed = format!("histories of length <= {}", if tier.thorough() { 3 } else { 2 });
     r.alphabet.insert("entry_points".into(), serde_json::json!(OPS));
     r.alphabet.insert("free_running_calls_per_entry_point".into(), serde_json::json!(if tier.thorough() { 4096 } else { 256 }));
